@@ -287,10 +287,12 @@ theorem idRepl_eq (st : St) (x : Name) : idRepl st x = oneRepl st "Identity" x [
 new `Identity`/`Cast` node reading one of the node's inputs -/
 def EvShape (n : Node) : Prop :=
   ∀ (st0 : St) (v : Nat),
-    ((evalPartial n v st0).1 = EvRes.none ∧ (evalPartial n v st0).2.sym = st0.sym) ∨
+    (evalPartial n v st0).2.dname = st0.dname ∧
+    (((evalPartial n v st0).1 = EvRes.none ∧ (evalPartial n v st0).2.sym = st0.sym) ∨
     (∃ x opn attrs, (evalPartial n v st0).1 = EvRes.repl (oneRepl st0 opn x attrs) ∧ some x ∈ n.inputs ∧
       (evalPartial n v st0).2.sym = st0.sym ∧
-      ((opn = "Identity" ∧ attrs = []) ∨ (opn = "Cast" ∧ ∃ t : Nat, attrs = [("to", Attr.int t)])))
+      ((opn = "Identity" ∧ attrs = [] ∧ n.op ≠ "Identity") ∨
+       (opn = "Cast" ∧ (∃ t : Nat, attrs = [("to", Attr.int t)]) ∧ n.op ≠ "Cast" ∧ n.op ≠ "Identity"))))
 
 theorem applyRepl_one (ctx : Ctx) (hnf : ctx.isFunction = false) (st2 : St) (n : Node) (o fv x : Name) (opn : String)
     (attrs : List (String × Attr)) (ho : n.outputs = [o]) (hx : x ≠ fv) :
@@ -307,10 +309,9 @@ theorem applyRepl_one (ctx : Ctx) (hnf : ctx.isFunction = false) (st2 : St) (n :
 
 theorem evShape_of_none (n : Node) (h : ∀ v, lookupEvaluator n v = none) : EvShape n := by
   intro st0 v
-  left
   unfold evalPartial
   rw [h v]
-  exact ⟨rfl, rfl⟩
+  exact ⟨rfl, Or.inl ⟨rfl, rfl⟩⟩
 
 theorem evShape_concat1 (n : Node) (x : Name) (hop : n.op = "Concat") (hin : n.inputs = [some x]) : EvShape n := by
   intro st0 v
@@ -318,8 +319,10 @@ theorem evShape_concat1 (n : Node) (x : Name) (hop : n.op = "Concat") (hin : n.i
   · have hl : lookupEvaluator n v = some evConcat := by
       unfold lookupEvaluator
       simp [hdom, hop]
-    right
-    refine ⟨x, "Identity", [], ?_, by rw [hin]; simp, ?_, Or.inl ⟨rfl, rfl⟩⟩
+    refine ⟨?_, Or.inr ⟨x, "Identity", [], ?_, by rw [hin]; simp, ?_, Or.inl ⟨rfl, rfl, by rw [hop]; decide⟩⟩⟩
+    · unfold evalPartial
+      rw [hl]
+      simp only [runEvaluator, evConcat, hin, replIdentity, St.freshName, St.note]
     · unfold evalPartial
       rw [hl]
       simp only [runEvaluator, evConcat, hin, replIdentity, St.freshName, St.note, oneRepl, freshOf]
@@ -341,8 +344,12 @@ theorem evShape_dropout (n : Node) (x : Name) (tl : List (Option Name)) (hop : n
     have hcond : (n.inputs.length ≤ 2 || (n.inputs[2]?).join == none) = true := by
       rw [hin]; simp; omega
     have h1 : (n.outputs.length == 1) = true := by simp [hout]
-    right
-    refine ⟨x, "Identity", [], ?_, by rw [hin]; simp, ?_, Or.inl ⟨rfl, rfl⟩⟩
+    refine ⟨?_, Or.inr ⟨x, "Identity", [], ?_, by rw [hin]; simp, ?_, Or.inl ⟨rfl, rfl, by rw [hop]; decide⟩⟩⟩
+    · unfold evalPartial
+      rw [hl]
+      simp only [runEvaluator, evDropout]
+      rw [if_pos hcond]
+      simp only [hin, St.freshName, h1, if_true, St.note]
     · unfold evalPartial
       rw [hl]
       simp only [runEvaluator, evDropout]
@@ -353,8 +360,7 @@ theorem evShape_dropout (n : Node) (x : Name) (tl : List (Option Name)) (hop : n
       simp only [runEvaluator, evDropout]
       rw [if_pos hcond]
       simp only [hin, St.freshName, h1, if_true, St.note]
-  · left
-    have hl : lookupEvaluator n v = none := by
+  · have hl : lookupEvaluator n v = none := by
       unfold lookupEvaluator
       by_cases hdom : n.domain = ""
       · have : ¬ 12 ≤ v := fun h => hreg ⟨hdom, h⟩
@@ -362,7 +368,7 @@ theorem evShape_dropout (n : Node) (x : Name) (tl : List (Option Name)) (hop : n
       · simp [hdom]
     unfold evalPartial
     rw [hl]
-    exact ⟨rfl, rfl⟩
+    exact ⟨rfl, Or.inl ⟨rfl, rfl⟩⟩
 
 theorem evShape_cast (n : Node) (x : Name) (hop : n.op = "Cast") (hin : n.inputs = [some x]) : EvShape n := by
   intro st0 v
@@ -375,20 +381,18 @@ theorem evShape_cast (n : Node) (x : Name) (hop : n.op = "Cast") (hin : n.inputs
     rw [hl]
     simp only [runEvaluator, evCast, hgi]
     cases hgo : getOutput n 0 with
-    | none => left; exact ⟨rfl, rfl⟩
+    | none => exact ⟨rfl, Or.inl ⟨rfl, rfl⟩⟩
     | some o =>
       simp only []
       cases hto : intAttr n "to" none with
-      | none => left; exact ⟨rfl, rfl⟩
+      | none => exact ⟨rfl, Or.inl ⟨rfl, rfl⟩⟩
       | some to =>
         simp only []
         by_cases hsame : ((elemType st0 n 0 : Int) == to) = true
-        · right
-          rw [if_pos hsame]
-          exact ⟨x, "Identity", [], rfl, by rw [hin]; simp, rfl, Or.inl ⟨rfl, rfl⟩⟩
-        · left
-          rw [if_neg hsame]
-          exact ⟨rfl, rfl⟩
+        · rw [if_pos hsame]
+          exact ⟨rfl, Or.inr ⟨x, "Identity", [], rfl, by rw [hin]; simp, rfl, Or.inl ⟨rfl, rfl, by rw [hop]; decide⟩⟩⟩
+        · rw [if_neg hsame]
+          exact ⟨rfl, Or.inl ⟨rfl, rfl⟩⟩
   · exact evShape_of_none n (fun v => by unfold lookupEvaluator; simp [hdom]) st0 v
 
 theorem evShape_castlike (n : Node) (x : Name) (tl : List (Option Name)) (hop : n.op = "CastLike") (hin : n.inputs = some x :: tl) :
@@ -402,17 +406,15 @@ theorem evShape_castlike (n : Node) (x : Name) (tl : List (Option Name)) (hop : 
     rw [hl]
     simp only [runEvaluator, evCastLike, hin]
     by_cases h0 : (elemType st0 n 1 == 0) = true
-    · left
-      rw [if_pos h0]
-      exact ⟨rfl, rfl⟩
+    · rw [if_pos h0]
+      exact ⟨rfl, Or.inl ⟨rfl, rfl⟩⟩
     · rw [if_neg h0]
       by_cases hs : (elemType st0 n 0 == elemType st0 n 1) = true
-      · right
-        rw [if_pos hs]
-        exact ⟨x, "Identity", [], rfl, by simp, rfl, Or.inl ⟨rfl, rfl⟩⟩
-      · right
-        rw [if_neg hs]
-        exact ⟨x, "Cast", [("to", .int (elemType st0 n 1))], rfl, by simp, rfl, Or.inr ⟨rfl, _, rfl⟩⟩
+      · rw [if_pos hs]
+        exact ⟨rfl, Or.inr ⟨x, "Identity", [], rfl, by simp, rfl, Or.inl ⟨rfl, rfl, by rw [hop]; decide⟩⟩⟩
+      · rw [if_neg hs]
+        exact ⟨rfl, Or.inr ⟨x, "Cast", [("to", .int (elemType st0 n 1))], rfl, by simp, rfl,
+          Or.inr ⟨rfl, ⟨_, rfl⟩, by rw [hop]; decide, by rw [hop]; decide⟩⟩⟩
   · exact evShape_of_none n (fun v => by unfold lookupEvaluator; simp [hdom]) st0 v
 
 /-- a node with one output whose evaluator answers in that shape whatever alias substitution did to its inputs -/
